@@ -10,13 +10,14 @@ PROPS["C10"] = dict(
     level_note="Trusts Go's regexp as the meaning of a configured pattern. Where policy.md / the oc struct comments leave the outcome open the "
                "interpreter reports 'ambiguous' and the comparison is skipped (counted per reason under amb:*), see assumptions. The daemon-level "
                "confirmation (ListPath / per-peer wire view) is a separate unit.",
-    technique="runtime differential monitor (ApplyPolicy vs. documented-model interpreter) + snapshot/compare non-interference monitor + configuration read-back comparison",
-    rule="case = one program (1-3 defined sets per type, 1-4 policies x 1-4 statements with 0-5 of the 15 condition types and any subset of the 8 "
+    technique="runtime differential monitor (ApplyPolicy vs. documented-model interpreter) + snapshot/compare non-interference monitor + configuration read-back comparison + edit-history monitor (random AddDefinedSet/DeleteDefinedSet/AddStatement/DeleteStatement/AddPolicy/DeletePolicy/Add|Set|DeletePolicyAssignment requests incl. requests that must be refused; model: refused = unchanged, accepted = exactly what it says; read-back + evaluation after every request)",
+    rule="case = one program followed by an edit history of 6 requests (each followed by a full read-back and 2 routes x 2 evaluations against the model; requests the documents give no meaning end the history); the program: (1-3 defined sets per type, 1-4 policies x 1-4 statements with 0-5 of the 15 condition types and any subset of the 8 "
          "modification actions + disposition, assignments for global and two neighbours, both directions, defaults ''/accept/reject) x 20 routes "
          "(v4/v6, local/internal/external, all attributes, slices with cap>len) x 2 evaluations (different assignment/direction/peer); an evaluation "
          "is non-trivial iff at least one statement applied or the default decided after at least one statement was evaluated; distinct by "
          "(condition types of the applied statements, actions applied, decided-by, verdict)",
-    assumptions=["conditions of later statements see the route as modified by earlier applied statements (policy.md: the action is applied before the route proceeds to the next step)",
+    assumptions=["edit requests (cli-command-syntax.md 2.4/3): a refused request changes nothing; add appends / creates, del <member> removes the named members (absent ones are ignored), del removes the object unless it is in use, set replaces; an accepted request the documents give no meaning (assignment re-created after del, set referenced only by a statement outside any policy) ends the history unless the listed configuration contradicts itself",
+                 "conditions of later statements see the route as modified by earlier applied statements (policy.md: the action is applied before the route proceeds to the next step)",
                  "the neighbor of a neighbor-set condition / peer-address is the peer the evaluation is for: the source on import, the destination on export, as pkg/server fills PolicyOptions.Info",
                  "a plain value in a community/ext-community/large-community set or remove list means exactly that value; anything else is a Go regexp searched in the canonical text",
                  "AS_PATH text is Quagga style (sequence 'a b', set '{a,b}', confed '(a b)' / '[a,b]'); '_' abbreviates (^|[,{}() ]|$) for every as-path-list entry, including the single-AS forms",
@@ -36,6 +37,10 @@ PROPS["C10"] = dict(
                 "action:ext-community:replace", "action:large-community:add", "action:large-community:remove", "action:large-community:replace",
                 "action:med:replace", "action:med:add", "action:med:sub", "action:local-pref", "action:origin", "action:as-path-prepend:asn",
                 "action:as-path-prepend:last-as", "action:next-hop:address", "action:next-hop:self", "action:next-hop:unchanged", "action:next-hop:peer-address",
+                "edits_accepted", "edits_refused", "edit_refused:del-statement-kinds", "edit_refused:add-statement", "edit_refused:add-policy-new", "edit_refused:add-policy-refer",
+                "edit_refused:del-policy", "edit_refused:del-defined-set", "edit_refused:add-assignment", "edit_accepted:del-statement-kinds", "edit_accepted:add-statement",
+                "edit_accepted:add-policy-refer", "edit_accepted:add-policy-new", "edit_accepted:del-policy-statement", "edit_accepted:del-defined-set-member",
+                "edit_accepted:add-defined-set", "edit_accepted:set-defined-set", "edit_accepted:set-assignment", "edit_accepted:del-assignment-policy",
                 # unit "e2e" (daemon level: ListPath views and the wire views of two targets)
                 "e2e:c10:scenarios", "e2e:c10:nontrivial_scenarios", "e2e:c10:mode:rs", "e2e:c10:mode:plain", "e2e:c10:routes", "e2e:c10:import:accepted", "e2e:c10:import:rejected",
                 "e2e:c10:import:decided_by:statement:accept", "e2e:c10:import:decided_by:statement:reject", "e2e:c10:import:decided_by:default:accept", "e2e:c10:import:decided_by:default:reject",
